@@ -51,6 +51,7 @@ theorem runCallback_ren (h : a.Inj) (net : Net) (s : Sim) (mi : Nat) (m : ModRt)
     exact runHandler_ren a net mi _ _ _ _
   | wakeup => rfl
   | end_ => simp only [runCallback, renMod_path, renMod_ttl0, log_ren]; exact runHandler_ren a net mi _ _ _ _
+  | restart => simp only [runCallback, renMod_path, renMod_ttl0, log_ren]; exact runHandler_ren a net mi _ _ _ _
 
 theorem flush_ren (s : Sim) : (renSim a s).flush = renSim a s.flush := by
   unfold Sim.flush
@@ -70,10 +71,14 @@ def renCb : Callback → Callback
   | .message msg => .message (renMsg a msg)
   | c => c
 
-theorem seedStage_ren (s : Sim) (mi : Nat) (b : Bool) : seedStage (renSim a s) mi b = renSim a (seedStage s mi b) := by
+@[simp] theorem recordSeed_ren (s b : Sim) (p : String) :
+    (renSim a s).recordSeed p (renSim a b) = renSim a (s.recordSeed p b) := rfl
+
+theorem seedStage_ren (s : Sim) (mi : Nat) (p : String) (b : Bool) :
+    seedStage (renSim a s) mi p b = renSim a (seedStage s mi p b) := by
   unfold seedStage
   cases b
-  · simp only [Bool.false_eq_true, if_false, pop_ren_snd]
+  · simp only [Bool.false_eq_true, if_false, pop_ren_snd, recordSeed_ren]
     exact updMod_ren a _ mi _ _ (fun m => by simp [renMod])
   · rfl
 
@@ -101,6 +106,115 @@ theorem runCallback_ren' (h : a.Inj) (net : Net) (s : Sim) (mi : Nat) (m : ModRt
   have := runCallback_ren a h net s mi m cb
   cases cb <;> exact this
 
+theorem finished_ren (t : TaskRt) : (renTask a t).finished = t.finished := by
+  unfold TaskRt.finished
+  simp only [renTask_prog, renTask_wait]
+  cases t.prog <;> cases t.wait <;> rfl
+
+theorem filterUnfinished_ren (p : String) (ts : List TaskRt) :
+    ((ts.map (renTask a)).filter (fun t => !t.finished)).map (fun t => (p, t.tag)) =
+      (ts.filter (fun t => !t.finished)).map (fun t => (p, t.tag)) := by
+  induction ts with
+  | nil => rfl
+  | cons t r ih =>
+    simp only [List.map_cons, List.filter_cons, finished_ren]
+    cases t.finished <;> simp [ih]
+
+theorem unfinishedTags_ren (m : ModRt) : unfinishedTags (renMod a m) = unfinishedTags m := by
+  simp only [unfinishedTags, renMod_tasks, renMod_path, filterUnfinished_ren]
+
+theorem foldRemove_ren (h : a.Inj) (ss : List Sl) :
+    ∀ p : List Timer.Slot,
+      (ss.map (renSl a)).foldl (fun p sl => if sl.reg then Timer.removeEntry p sl.deadline sl.id else p) (p.map (renSlot a)) =
+        (ss.foldl (fun p sl => if sl.reg then Timer.removeEntry p sl.deadline sl.id else p) p).map (renSlot a) := by
+  induction ss with
+  | nil => intro p; rfl
+  | cons sl r ih =>
+    intro p
+    simp only [List.map_cons, List.foldl_cons, renSl_reg, renSl_deadline, renSl_id]
+    by_cases hr : sl.reg = true
+    · simp only [hr, if_true]; rw [removeEntry_ren a h]; exact ih _
+    · simp only [hr]; exact ih p
+
+theorem dropWait_ren (h : a.Inj) (p : List Timer.Slot) (w : Wait) :
+    dropWait (p.map (renSlot a)) (renWait a w) = (dropWait p w).map (renSlot a) := by
+  cases w with
+  | run => rfl
+  | sleeping sl =>
+    simp only [renWait, dropWait, renSl_reg, renSl_deadline, renSl_id]
+    by_cases hr : sl.reg = true
+    · simp only [hr, if_true]; exact removeEntry_ren a h p _ _
+    · simp [hr]
+  | selecting ss => simp only [renWait, dropWait]; exact foldRemove_ren a h ss p
+
+theorem foldDropWait_ren (h : a.Inj) (ts : List TaskRt) :
+    ∀ p : List Timer.Slot,
+      (ts.map (renTask a)).foldl (fun p t => dropWait p t.wait) (p.map (renSlot a)) =
+        (ts.foldl (fun p t => dropWait p t.wait) p).map (renSlot a) := by
+  induction ts with
+  | nil => intro p; rfl
+  | cons t r ih =>
+    intro p
+    simp only [List.map_cons, List.foldl_cons, renTask_wait, dropWait_ren a h]
+    exact ih _
+
+theorem killTasks_ren (h : a.Inj) (m : ModRt) : killTasks (renMod a m) = renMod a (killTasks m) := by
+  simp only [killTasks, renMod_tasks, renMod_pending, foldDropWait_ren a h]
+  simp [renMod, renTask, renWait]
+
+@[simp] theorem addDropped_ren (s : Sim) (l : List (String × String)) :
+    (renSim a s).addDropped l = renSim a (s.addDropped l) := rfl
+
+theorem shutMod_ren (h : a.Inj) (now : Nat) (m : ModRt) : shutMod now (renMod a m) = renMod a (shutMod now m) := by
+  unfold shutMod
+  rw [← activate_ren, killTasks_ren a h]
+  rfl
+
+theorem resetStage_ren (h : a.Inj) (net : Net) (s : Sim) (mi : Nat) (path : String) :
+    resetStage net a (renSim a s) mi path = renSim a (resetStage net Ambient.canon s mi path) := by
+  unfold resetStage
+  simp only [pop_ren_snd, recordSeed_ren, log_ren, execFuel_ren]
+  rw [schedLoop_ren a h, deactivate_ren]
+
+theorem processShutdown_ren (h : a.Inj) (net : Net) (s : Sim) (mi : Nat) :
+    processShutdown net a (renSim a s) mi = renSim a (processShutdown net Ambient.canon s mi) := by
+  unfold processShutdown
+  simp only [renSim_mods, List.getElem?_map]
+  cases s.mods[mi]? with
+  | none => rfl
+  | some m =>
+    simp only [Option.map, renMod_shutdownReq, renMod_path]
+    cases m.shutdownReq with
+    | none => rfl
+    | some restart =>
+      simp only [unfinishedTags_ren, addDropped_ren, renSim_now]
+      rw [updMod_ren a _ mi _ (shutMod s.now) (fun m => shutMod_ren a h s.now m), resetStage_ren a h]
+      cases restart with
+      | none => rfl
+      | some t => exact schedule_ren a _ (.restart mi) t
+
+theorem wakeStage_ren (s : Sim) (mi : Nat) (cb : Callback) :
+    wakeStage (renSim a s) mi (renCb a cb) = renSim a (wakeStage s mi cb) := by
+  have hA := updMod_ren a s mi _ (activate s.now) (fun m => activate_ren a s.now m)
+  cases cb with
+  | restart =>
+    simp only [renCb, wakeStage, renSim_now, hA]
+    exact updMod_ren a _ mi _ _ (fun m => by simp [renMod])
+  | start => exact hA
+  | message m => exact hA
+  | wakeup => exact hA
+  | end_ => exact hA
+
+theorem execStage_ren (h : a.Inj) (net : Net) (s : Sim) (mi : Nat) (m0 : ModRt) (cb : Callback) :
+    execStage net a (renSim a s) mi (renMod a m0) (renCb a cb) = renSim a (execStage net Ambient.canon s mi m0 cb) := by
+  unfold execStage
+  have hruns : (renCb a cb).runs m0.active = cb.runs m0.active := by cases cb <;> rfl
+  simp only [renMod_active, renMod_path, renMod_seeded, hruns]
+  cases cb.runs m0.active
+  · rfl
+  · simp only [if_true]
+    rw [seedStage_ren, runCallback_ren' a h, execFuel_ren, schedLoop_ren a h]
+
 theorem moduleEvent_ren (h : a.Inj) (net : Net) (s : Sim) (mi : Nat) (cb : Callback) (flush : Bool) :
     moduleEvent net a (renSim a s) mi (renCb a cb) flush =
       renSim a (moduleEvent net Ambient.canon s mi cb flush) := by
@@ -109,12 +223,11 @@ theorem moduleEvent_ren (h : a.Inj) (net : Net) (s : Sim) (mi : Nat) (cb : Callb
   cases hm : s.mods[mi]? with
   | none => rfl
   | some m0 =>
-    simp only [Option.map, renMod_seeded, renMod_path, renSim_now]
-    rw [updMod_ren a s mi _ (activate s.now) (fun m => activate_ren a s.now m)]
-    rw [seedStage_ren, runCallback_ren' a h, execFuel_ren, schedLoop_ren a h, deactivate_ren]
+    simp only [Option.map]
+    rw [wakeStage_ren, execStage_ren a h, deactivate_ren]
     cases flush
     · rfl
-    · simp only [if_true]; exact flush_ren a _
+    · simp only [if_true]; rw [flush_ren, processShutdown_ren a h]
 
 theorem dispatch_ren (h : a.Inj) (net : Net) (s : Sim) (ev : Option KEvent) :
     dispatch net a (renSim a s) (ev.map (renEv a)) = renSim a (dispatch net Ambient.canon s ev) := by
@@ -124,6 +237,7 @@ theorem dispatch_ren (h : a.Inj) (net : Net) (s : Sim) (ev : Option KEvent) :
     cases ev with
     | deliver mi m => exact moduleEvent_ren a h net s mi (.message m) true
     | wakeup mi => exact moduleEvent_ren a h net s mi .wakeup true
+    | restart mi => exact moduleEvent_ren a h net s mi .restart true
     | exitConn mi m => exact schedule_ren a s (.deliver mi m) s.now
 
 theorem step_ren (h : a.Inj) (net : Net) (s : Sim) :
@@ -202,17 +316,7 @@ theorem unfinishedOf_ren (ms : List ModRt) : unfinishedOf (ms.map (renMod a)) = 
   induction ms with
   | nil => rfl
   | cons m r ih =>
-    simp only [List.map_cons, List.flatMap_cons, ih, renMod_tasks, renMod_path]
-    congr 1
-    induction m.tasks with
-    | nil => rfl
-    | cons t ts iht =>
-      have hf : (renTask a t).finished = t.finished := by
-        unfold TaskRt.finished
-        simp only [renTask_prog, renTask_wait]
-        cases t.prog <;> cases t.wait <;> rfl
-      simp only [List.map_cons, List.filter_cons, hf]
-      cases t.finished <;> simp [iht]
+    simp only [List.map_cons, List.flatMap_cons, ih, renMod_tasks, renMod_path, filterUnfinished_ren]
 
 theorem run_ren (h : a.Inj) (net : Net) (stream : List Nat) (fuel : Nat) :
     run net a stream fuel = run net Ambient.canon stream fuel := by
